@@ -233,6 +233,19 @@ def run(E: Engine, rep: Report, tier: str) -> dict:
     if n_scan < 3:
         rep.error(f"only {n_scan} by-name scans of the call record found (expected is_in_eom_mode, _validate_and_adjust_pulse, switch_device, ...)")
     rep.floor("MAP", 3)
+    # build() refuses an incomplete assignment whatever else is wrong with it: the "Did not receive values" rejection
+    # depends on the missing names only (not on whether unknown names were also given) -- otherwise a variable keeps
+    # the value of the previous build and successive builds are no longer independent
+    ccv = E.method(SEQ, "_cross_check_vars")
+    miss = [l for l in S(E, ccv).logged("raise") if l.value is not None and "TypeError" in sh(l.value, 40)]
+    if not miss:
+        raise AnalysisError("anchor: the missing-variables TypeError of Sequence._cross_check_vars was not found")
+    for l in miss:
+        lits = sym.conj_of(l.cond)
+        invalid_t = sym.Pattern("vars.keys() - self._variables.keys()").term
+        dep = [x for x in lits if sym.contains(x, invalid_t)]
+        has_missing = any(sym.contains(x, sym.Pattern("self._variables.keys() - vars.keys()").term) for x in lits)
+        rep.check(has_missing and not dep, "FLOW", "Sequence._cross_check_vars|missing-variables-refused-unconditionally", "raised iff some declared variable got no value", f"the rejection of missing variables is reached only under `{[sh(x, 80) for x in dep]}` (a condition on the *unknown* names): with a misspelt name in the same call the missing variable silently keeps its previous value", E.where(ccv, l.node))
     # every sequence returned by build() is a freshly constructed one (`type(seq)(register=..., device=...)` replayed
     # from the record), never the shallow `copy.copy(self)`, which shares the schedule, the call record and the phase
     # references with the template
